@@ -52,6 +52,9 @@ class _NoInline(Domain):
         return fold_truth(n)
 
 
+PEELED = set()
+
+
 def find_walk(f, allow_seed_only=False):
     """(while node, worklist name, seed param) or None.  With
     allow_seed_only a work-list loop that never pushes subclasses is found
@@ -69,6 +72,16 @@ def find_walk(f, allow_seed_only=False):
                     and isinstance(v.elts[0], ast.Name) \
                     and v.elts[0].id in params:
                 seeds[n.targets[0].id] = v.elts[0].id
+            elif isinstance(v, ast.Call) and isinstance(
+                    v.func, ast.Attribute) and v.func.attr == \
+                    '__subclasses__' and isinstance(
+                        v.func.value, ast.Name) and v.func.value.id in params \
+                    and not v.args:
+                # the queried type itself was examined before the loop
+                # (first iteration peeled): the list starts with its
+                # subclasses
+                seeds[n.targets[0].id] = v.func.value.id
+                PEELED.add(n.targets[0].id + '@' + f.qualname)
     for n in ast.walk(f.node):
         if isinstance(n, ast.While):
             t = n.test
@@ -241,7 +254,24 @@ def analyse_walk(program, rep, f, world):
                      'object was detached: more than one object is removed by '
                      'one call', tr)
             if idx == 0:
-                if popped == seed:
+                peeled_ok = False
+                if f'{wl}@{f.qualname}' in PEELED:
+                    # exact type first: a membership test of the queried type
+                    # in a table was decided (and missed) before the loop
+                    first_test = [e for e in tr if e.kind == 'cond']
+                    pre = []
+                    for e in tr:
+                        if e.kind == 'cond' and e.node is loop.test:
+                            break
+                        if e.kind == 'cond':
+                            pre.append(e)
+                    peeled_ok = any(
+                        isinstance(e.sym.node, ast.Compare) and isinstance(
+                            e.sym.node.ops[0], ast.In) and norm(
+                                e.sym.node.left) == seed and any(
+                                    w_ in e.sym.text for w_ in TABLE_WORDS)
+                        and e.extra is False for e in pre)
+                if popped == seed or peeled_ok:
                     okc['exact-first'] += 1
                 elif popped.endswith(('.pop()', '.popleft()')):
                     unknown_first += 1
